@@ -200,8 +200,10 @@ def run(ctx):
             cases.append({"id": f"s{t}_{k}", "tree": t1, "opts": {}, "destkind": "absent", "stitched": True, "steps": steps})
     # one version restored over another with the overwrite option: what the first restore put there (symlinks from the
     # source) must not be written through by the second
-    for t in range(12 if quick else 300):
+    for t in range(24 if quick else 400):
         ta = tree_with_links(ctx)
+        # always one link to a directory that exists beside the destination
+        ta["c"]["lnk"] = {"k": "l", "target": ctx.rng.choice(["../outside/sdir", "../outside", "@WS@/outside/sdir"]), "mtime": 10**18 + 40}
         tb = json.loads(json.dumps(ta))
         swapped = []
 
@@ -209,13 +211,16 @@ def run(ctx):
             for nm in sorted(node["c"]):
                 ch = node["c"][nm]
                 if ch["k"] == "l":
-                    if ctx.rng.random() < 0.7:
-                        if "sentinel" in ch["target"] or "inner" in ch["target"] or ctx.rng.random() < 0.3:
+                    if ctx.rng.random() < 0.7 or nm == "lnk":
+                        if nm != "lnk" and ("sentinel" in ch["target"] or "inner" in ch["target"] or ctx.rng.random() < 0.3):
                             node["c"][nm] = {"k": "f", "data": gen.rand_bytes(ctx.rng, 5).hex(), "mode": 0o604, "mtime": 10**18 + 321}
                         else:
                             node["c"][nm] = {"k": "d", "mode": 0o701, "mtime": 10**18 + 322, "c": {
                                 "inner": {"k": "f", "data": "4e4557", "mode": 0o666, "mtime": 10**18 + 323},
                                 "sentinel": {"k": "f", "data": "4e", "mode": 0o666, "mtime": 10**18 + 324},
+                                "fresh": {"k": "d", "mode": 0o755, "mtime": 10**18 + 328, "c": {
+                                    "f": {"k": "f", "data": "66", "mode": 0o644, "mtime": 10**18 + 329},
+                                    "l": {"k": "l", "target": "f", "mtime": 10**18 + 330}}},
                                 "sdir": {"k": "d", "mode": 0o777, "mtime": 10**18 + 325, "c": {
                                     "inner": {"k": "l", "target": "x", "mtime": 10**18 + 326},
                                     "deep": {"k": "f", "data": "64", "mode": 0o644, "mtime": 10**18 + 327}}}}}
@@ -226,7 +231,7 @@ def run(ctx):
         first, second = (0, 1) if t % 3 else (1, 0)
         rs = {"op": "restore", "band": second, "dest": "dest", "overwrite": True}
         if swapped and second == 1 and t % 2:
-            rs["subtree"] = ctx.rng.choice(swapped) + ctx.rng.choice(["", "/sdir"])
+            rs["subtree"] = ctx.rng.choice(swapped + ["/lnk"]) + ctx.rng.choice(["", "/sdir", "/fresh", "/fresh"])
         steps = [{"op": "init"}, {"op": "mktree", "path": "outside", "tree": OUTSIDE}, {"op": "mktree", "path": "src", "tree": ta},
                  {"op": "backup", "opts": scen.small_opts(ctx.rng)}, {"op": "mktree", "path": "src", "tree": tb},
                  {"op": "backup", "opts": scen.small_opts(ctx.rng)},
